@@ -1054,6 +1054,80 @@ class Interp:
         return Rat.atom(App('call:' + f.qualname, [self.arg_key(a) for a in args] +
                             [self.arg_key(v) for _, v in sorted(kws.items())]))
 
+    @staticmethod
+    def _single_exit(fnode):
+        """body of a function whose early `return c` statements (c one boolean constant) sit inside loops / ifs and whose last
+        statement returns the other constant, rewritten with ONE result flag: `__r = not c` first, every early return becomes
+        `__r = c` (+ `break` inside a loop), whatever follows a construct that may have set the flag runs under `if __r != c`,
+        and the function ends with `return __r`.  A search helper that returns early then reads as the flag-and-break loop it
+        abbreviates.  None when the function is not of that shape."""
+        import copy
+        body = [s_ for s_ in fnode.body if not (isinstance(s_, ast.Expr) and isinstance(s_.value, ast.Constant))]
+        if not body or not isinstance(body[-1], ast.Return) or not isinstance(body[-1].value, ast.Constant) or \
+                not isinstance(body[-1].value.value, bool):
+            return None
+        final = body[-1].value.value
+        early = [x for s_ in body[:-1] for x in ast.walk(s_) if isinstance(x, ast.Return)]
+        in_loop = [x for s_ in body[:-1] if isinstance(s_, (ast.For, ast.While)) for x in ast.walk(s_) if isinstance(x, ast.Return)]
+        if not in_loop or not all(isinstance(x.value, ast.Constant) and x.value.value is (not final) for x in early):
+            return None
+        if any(isinstance(x, (ast.FunctionDef, ast.Lambda, ast.Try, ast.With)) for s_ in body for x in ast.walk(s_)):
+            return None
+        R = '__r%d' % fnode.lineno
+        c = not final
+
+        def setr(at):
+            return ast.copy_location(ast.Assign(targets=[ast.Name(id=R, ctx=ast.Store())], value=ast.Constant(value=c)), at)
+
+        def unset_test(at):
+            t = ast.Name(id=R, ctx=ast.Load())
+            return ast.copy_location(ast.UnaryOp(op=ast.Not(), operand=t) if c else t, at)
+
+        def may_set(s_):
+            return any(isinstance(x, ast.Return) for x in ast.walk(s_))
+
+        def xf(stmts, loop_depth):
+            out = []
+            for i_, s_ in enumerate(stmts):
+                if isinstance(s_, ast.Return):
+                    out.append(setr(s_))
+                    if loop_depth:
+                        out.append(ast.copy_location(ast.Break(), s_))
+                    return out
+                if not may_set(s_):
+                    out.append(copy.deepcopy(s_))
+                    continue
+                s2 = copy.copy(s_)
+                if isinstance(s_, ast.If):
+                    s2.body = xf(s_.body, loop_depth)
+                    s2.orelse = xf(s_.orelse, loop_depth)
+                elif isinstance(s_, (ast.For, ast.While)):
+                    if s_.orelse:
+                        raise ValueError('loop else')
+                    s2.body = xf(s_.body, loop_depth + 1)
+                else:
+                    raise ValueError('statement kind')
+                out.append(s2)
+                rest = xf(stmts[i_ + 1:], loop_depth)
+                if loop_depth and isinstance(s_, (ast.For, ast.While)):
+                    # the flag set in an inner loop also leaves the enclosing one
+                    out.append(ast.copy_location(ast.If(test=(ast.Name(id=R, ctx=ast.Load()) if c else ast.UnaryOp(op=ast.Not(), operand=ast.Name(id=R, ctx=ast.Load()))),
+                                                        body=[ast.Break()], orelse=[]), s_))
+                if rest:
+                    out.append(ast.copy_location(ast.If(test=unset_test(s_), body=rest, orelse=[]), s_))
+                return out
+            return out
+        try:
+            new = xf(body[:-1], 0)
+        except ValueError:
+            return None
+        init = ast.copy_location(ast.Assign(targets=[ast.Name(id=R, ctx=ast.Store())], value=ast.Constant(value=final)), body[0])
+        ret = ast.copy_location(ast.Return(value=ast.Name(id=R, ctx=ast.Load())), body[-1])
+        res = [init] + new + [ret]
+        for s_ in res:
+            ast.fix_missing_locations(s_)
+        return res
+
     def _inline_shared(self, f, args, kws, e):
         """execute a package function in place, on this kernel: its loops, stores, calls and events are recorded here
         (under the current guards and loops), its local names live in their own environment, its return value(s) come
@@ -1083,7 +1157,8 @@ class Interp:
                 except AnalysisIncomplete:
                     pass
         base = len(self.guards)
-        sub.block(f.node.body)
+        body = self._single_exit(f.node) or f.node.body
+        sub.block(body)
         self.fresh = sub.fresh
         if hasattr(sub, 'cells'):
             self.cells = sub.cells
